@@ -267,6 +267,8 @@ class InterpCore:
                 broke = True
                 break
         if not broke:
+            if isinstance(seq, range) and len(seq) >= 100_000:
+                raise Limit(f"loop over an unbounded counter not left after {len(seq)} iterations at {self.site(s)}")
             self.exec_block(s.orelse, env, run)
 
     def exec_while(self, s, env, run):
@@ -1205,7 +1207,7 @@ class InterpCore:
         if isinstance(v, (str, bytes)):
             return list(v)
         if isinstance(v, range):
-            return list(v)
+            return v if len(v) > 10_000 else list(v)  # long ranges are iterated lazily
         if isinstance(v, ListV):
             if v.may:
                 return None
